@@ -217,6 +217,14 @@ fn comment_spliced(want: &str, got: &str) -> bool {
     }
 }
 
+/// `got` = `want` with more leading line breaks *and* exactly one more trailing line break
+/// after two or more (both folded-scalar findings at once)
+fn both_break_runs_grown(want: &str, got: &str) -> bool {
+    let (wl, gl) = (want.trim_start_matches('\n'), got.trim_start_matches('\n'));
+    let (kw, kg) = (want.len() - wl.len(), got.len() - gl.len());
+    kw >= 1 && kg > kw && wl.ends_with("\n\n") && gl.len() == wl.len() + 1 && gl.starts_with(wl) && gl.ends_with('\n')
+}
+
 /// `got` = `want` with more line breaks in front of the same text
 fn leading_breaks_multiplied(want: &str, got: &str) -> bool {
     let (w, g) = (want.trim_start_matches('\n'), got.trim_start_matches('\n'));
@@ -296,6 +304,7 @@ fn diff(a: &J, b: &J, p: &mut Vec<Seg>) -> Option<Diff> {
                 (J::Str(s), J::Str(t)) if s.ends_with('\n') && s[..s.len() - 1] == **t => "str:one-trailing-line-break-lost".to_string(),
                 (J::Str(s), J::Str(t)) if s.ends_with("\n\n") && t.len() == s.len() + 1 && t.starts_with(s.as_str()) && t.ends_with('\n') => "str:one-trailing-line-break-added".to_string(),
                 (J::Str(s), J::Str(t)) if leading_breaks_multiplied(s, t) => "str:leading-line-breaks-multiplied".to_string(),
+                (J::Str(s), J::Str(t)) if both_break_runs_grown(s, t) => "str:leading-and-trailing-line-breaks-grown".to_string(),
                 (J::Str(s), _) => format!("str:{}", str_class(s, false)),
                 _ => format!("{}-reads-as-{}", a.kind(), b.kind()),
             };
@@ -644,6 +653,10 @@ pub fn check_case(case: &Case, st: &mut Stats) -> Result<Outcome, Fail> {
     }
     if sym == "C15/reread-differs/str:leading-line-breaks-multiplied" && has_folded_header(&case.yaml) {
         return Err(rename(&f, SIG_FOLDED_LEAD, "input has a folded block scalar"));
+    }
+    if sym == "C15/reread-differs/str:leading-and-trailing-line-breaks-grown" && has_folded_header(&case.yaml) {
+        // both folded-scalar findings in one value: counted with the leading-run finding
+        return Err(rename(&f, SIG_FOLDED_LEAD, "input has a folded block scalar; the value starts with a line break and ends in two or more"));
     }
     if sym == "C15/reread-differs/str:one-trailing-line-break-added" && has_folded_header(&case.yaml) {
         return Err(rename(&f, SIG_FOLDED_KEEP, "input has a folded block scalar; the value ends in two or more line breaks"));
